@@ -395,6 +395,15 @@ class Exec(object):
                     v = VSet(v.t, v.n)
                     v.origin = key
                 return v
+        # a real closure created when the module was imported (e.g. methods made by a function factory in a class body):
+        # its free variables live in the function object's cells
+        pf = getattr(fr.func, 'pyfunc', None) if fr.func is not None else None
+        if pf is not None and getattr(pf, '__closure__', None) and name in pf.__code__.co_freevars:
+            cell = pf.__closure__[pf.__code__.co_freevars.index(name)]
+            try:
+                return self.lift_obj(cell.cell_contents)
+            except ValueError:
+                return Raise(self.mk_exc(path, NameError, name))
         # module globals
         ov = self.models.global_override(fr.func.modname if fr.func else None, name)
         if ov is not None:
